@@ -1067,7 +1067,14 @@ def check_gp_records(mon):
     for t, (bt, ba) in enumerate(zip(bts, hist.best_agent)):
         if not (float(ba[1]) < FLOAT_MAX):
             continue
-        bp = tree_value(bt)
+        try:
+            bp = tree_value(bt)
+        except Exception as ex:  # noqa: BLE001
+            mon.v('C12', 'recorded-best-tree-cannot-be-evaluated', 'record %d of %d: evaluating the recorded best tree after the task raises %s (%s); at dump time it '
+                  'evaluated to the recorded best position' % (t, len(bts), type(ex).__name__, str(ex)[:80]), type(ex).__name__, 'the recorded best position')
+            mon.v('C04', 'recorded-best-tree-altered-later', 'record %d of %d: the recorded best tree can no longer be evaluated after the task (%s): a later '
+                  'iteration altered an earlier record' % (t, len(bts), type(ex).__name__), type(ex).__name__, 'unaltered record')
+            return
         cl = np.clip(bp, mon.lo, mon.hi) if bp.shape == mon.shape else bp
         if not eqarr(cl, np.asarray(ba[0], dtype=float)):
             mon.v('C12', 'recorded-best-tree-differs-from-recorded-best-position', 'record %d: clip(best_tree.position) differs from the recorded best position' % t,
